@@ -107,6 +107,14 @@ def crash_case(case, model, rep):
             killed = p.poll() is None
             scen.kill_tree(p)
             p.communicate()
+        # what the pointer file says right after the kill, before any monorail command reads (and
+        # possibly "repairs") the tracking directory
+        ptr_after_kill = None
+        try:
+            import json as _json1
+            ptr_after_kill = _json1.load(open(os.path.join(repo.out_dir, "tracking", "run.json")))["id"]
+        except (OSError, ValueError):
+            pass
         scen.reap_helpers(repo)
         rep.evaluations += 1
         rep.count("killed" if killed else "finished_before_kill")
@@ -119,12 +127,7 @@ def crash_case(case, model, rep):
         rep.nontrivial_case(case)
         after = snapshot(repo, max_runs)
         problems = []
-        ptr_now = None
-        try:
-            import json as _json
-            ptr_now = _json.load(open(os.path.join(repo.out_dir, "tracking", "run.json")))["id"]
-        except (OSError, ValueError):
-            pass
+        ptr_now = ptr_after_kill
         if (ptr_now == nxt and (m["pointer"] != nxt)) if not lowered else (ptr_now is not None and ptr_now != ptr_before):
             # the kill came after the atomic pointer rename: the killed run is the last completed
             # run. Its records must be complete and addressable.
